@@ -27,13 +27,12 @@ JM = "journal::manager::JournalManager"
 PERSISTED = "get_highest_persisted_seqno"
 
 
-def run(ctx):
+def deletion_guard(ctx, rule):
+    """the per-watermark guard in JournalManager::maintenance; returns (fn, remove_file blocks, origins) for further rules"""
     F = ctx.F
-    cg = ctx.cg
-    # ---- R-C10.1 single deleter, guarded
-    n = FS.check_fs_table(ctx, "R-C10.1", only={"std::fs::remove_file", "std::fs::File::set_len"})
-    ctx.floor("R-C10.1", "remove_file / set_len call sites", n, 6)
-    mt = ctx.fn(JM + "::maintenance", "R-C10.1")
+    rm = []
+    og = None
+    mt = ctx.fn(JM + "::maintenance", rule)
     if mt:
         og = ctx.og(mt)
         rm = R.call_blocks(mt, ("std::fs::remove_file",))
@@ -41,7 +40,7 @@ def run(ctx):
         ld = [b for b, t in mt.calls() if A.cname(t) == "std::sync::atomic::Atomic::<bool>::load" and
               any(x.k == "field" and x.a[1] == "is_deleted" for x in A.walk(og.of_operand(t["args"][0])))]
         if not rm or not ps:
-            ctx.ob("R-C10.1", mt, "deletion-and-check-present", False, "maintenance lacks remove_file (%d) or the persisted-seqno check (%d)" % (len(rm), len(ps)))
+            ctx.ob(rule, mt, "deletion-and-check-present", False, "maintenance lacks remove_file (%d) or the persisted-seqno check (%d)" % (len(rm), len(ps)))
         else:
             # (a) None edge of the persisted seqno never deletes
             sw = A.switch_after_call(mt, ps[0])
@@ -50,7 +49,7 @@ def run(ctx):
                 _, labels = A.switch_info(mt, sw)
                 none_t = [tg for tg, ns in labels.items() if "None" in ns]
                 ok = bool(none_t) and not any(r in A.reach(mt, none_t) for r in rm)
-            ctx.ob("R-C10.1", mt, "nothing-persisted-keeps-journal", ok, "a keyspace with no persisted seqno stops the eviction" if ok else "a keyspace that has flushed nothing yet does not stop the journal from being deleted")
+            ctx.ob(rule, mt, "nothing-persisted-keeps-journal", ok, "a keyspace with no persisted seqno stops the eviction" if ok else "a keyspace that has flushed nothing yet does not stop the journal from being deleted")
             # (b) persisted < lsn never deletes
             ok = False
             detail = "no comparison between the persisted seqno and the watermark lsn"
@@ -67,7 +66,7 @@ def run(ctx):
                 leak = [r for r in rm if r in A.reach(mt, less)]
                 ok = not leak
                 detail = "on the edge where persisted < watermark the journal is %s" % ("kept" if ok else "still deleted (polarity/comparison wrong): unflushed writes of that keyspace are lost with the file")
-            ctx.ob("R-C10.1", mt, "lagging-keyspace-keeps-journal", ok, detail)
+            ctx.ob(rule, mt, "lagging-keyspace-keeps-journal", ok, detail)
             # (c) the check can only be bypassed through is_deleted
             nexts = [b for b, t in mt.calls() if A.cname(t).endswith("::next") and "EvictionWatermark" in (t.get("full") or "")]
             ok = False
@@ -85,8 +84,19 @@ def run(ctx):
                 r = A.reach(mt, some_t, avoid=ps + bypass)
                 ok = bool(some_t) and not any(x in r for x in nexts + rm)
                 detail = "each watermark is either checked against the persisted seqno or belongs to a deleted keyspace" if ok else "a watermark can be skipped without the persisted-seqno check (not via is_deleted)"
-            ctx.ob("R-C10.1", mt, "every-watermark-checked", ok, detail)
+            ctx.ob(rule, mt, "every-watermark-checked", ok, detail)
             # the check reads the keyspace of the same watermark whose lsn is compared
+    return mt, rm, og
+
+
+def run(ctx):
+    F = ctx.F
+    cg = ctx.cg
+    # ---- R-C10.1 single deleter, guarded
+    n = FS.check_fs_table(ctx, "R-C10.1", only={"std::fs::remove_file", "std::fs::File::set_len"})
+    ctx.floor("R-C10.1", "remove_file / set_len call sites", n, 6)
+    mt, rm, og = deletion_guard(ctx, "R-C10.1")
+    if mt:
         # ---- R-C10.2 oldest first
         fi = [b for b, t in mt.calls() if A.cname(t).endswith("::first") or A.cname(t).endswith("::front")]
         rmv = [(b, t) for b, t in mt.calls() if A.cname(t).endswith("Vec::<T, A>::remove") or A.cname(t).endswith("::pop_front")]
